@@ -56,9 +56,12 @@ UNITS = [
     ("Vs", '#include "hdf_priv.h"\n#include "vg_priv.h"\n#include "%s/vsfld.c"\n' % HS +
      'static const int32 vs_nt_codes[10] = {DFNT_UCHAR8, DFNT_CHAR8, DFNT_FLOAT32, DFNT_FLOAT64, DFNT_INT8, DFNT_UINT8, DFNT_INT16, DFNT_UINT16, DFNT_INT32, DFNT_UINT32};\n'
      'static long long *vs_nt_sizes(int native) { static long long t[2][10]; for (int i = 0; i < 10; i++) t[native][i] = DFKNTsize(vs_nt_codes[i] | (native ? DFNT_NATIVE : 0)); return t[native]; }\n'
-     'static int vs_host_le(void) { int one = 1; return *(unsigned char *)&one; }\n',
+     'static int vs_host_le(void) { int one = 1; return *(unsigned char *)&one; }\n'
+     'static long long *vs_map_old(void) { static long long t[16]; for (int i = 0; i < 16; i++) t[i] = map_from_old_types(i); return t; }\n',
      ["VDATA_BUFFER_MAX", "_HDF_VSPACK", "_HDF_VSUNPACK", "NRESERVED", ("HOST_LE", "vs_host_le()")],
-     [("NT_CODES", "vs_nt_codes", "10"), ("NT_SIZES", "vs_nt_sizes(0)", "10"), ("NT_NSIZES", "vs_nt_sizes(1)", "10")]),
+     [("NT_CODES", "vs_nt_codes", "10"), ("NT_SIZES", "vs_nt_sizes(0)", "10"), ("NT_NSIZES", "vs_nt_sizes(1)", "10"),
+      # C07 function-level cross-run of vunpackvs: map_from_old_types (vconv.c) on the old type codes 0..15 (every other value maps to itself)
+      ("MAP_OLD_TYPES", "vs_map_old()", "16")]),
     ("Crle", '#include "hdf_priv.h"\n#include "%s/crle.c"\n' % HS,
      ["RUN_MASK", "COUNT_MASK", "RLE_BUF_SIZE", "RLE_MIN_RUN", "RLE_MAX_RUN", "RLE_MIN_MIX", "RLE_NIL",
       "TMP_BUF_SIZE"],   # chunk size of the forward part of HCPcrle_seek (session model lean/H4/RleSess.lean)
@@ -373,6 +376,22 @@ FNUNITS = [
       "abbrev": {"access_rec_special_info_cinfo_coder_info_nbit_info": "nbit", "info_cinfo_coder_info_nbit_info": "nbit"},
       "imports": ["H4.Gen.Cnbit"], "globals": {"mask_arr8": "H4.Gen.Cnbit.mask_arr8", "mask_arr32": "H4.Gen.Cnbit.mask_arr32"},
       "assume_calls": {"Hbitseek": "param:bitseek_ret"}, "per_fn": {"HCIcnbit_init": {"twos_complement_bitops": True}}}),
+    # C08 / C02: the vgroup record DECODER (DECODE macros = byte loads through a moving pointer with signed / unsigned bit operations:
+    # two's complement semantics; arrays, names and the attribute list are allocated with malloc and assigned to members of *vg;
+    # HIstrncpy of name and class; `goto done` on allocation failure)
+    ("Vgp3", "hdf/src/vgp.c", ["vunpackvg"],
+     {"ignore_calls": ["HEclear", "HEPclear", "HEpush"], "twos_complement_bitops": True, "wrap_int_conv": True,
+      "malloc_null_above_ptrdiff_max": True}),
+    # C07 / C02: the vdata header DECODER (as Vgp3; in addition: the five field arrays are cursors into ONE malloc'ed block `wlist.bptr` of
+    # 16-bit cells, the field names an array of rows each allocated in the loop and filled by HIstrncpy, vsname / vsclass fixed arrays of
+    # *vs, the attribute list an array of three-field structs; map_from_old_types (vconv.c) and DFKNTsize (dfconv.c) are pure functions
+    # of their argument: parameters of the translated function)
+    ("Vio3", "hdf/src/vio.c", ["vunpackvs"],
+     {"ignore_calls": ["HEclear", "HEPclear", "HEpush"], "twos_complement_bitops": True, "wrap_int_conv": True,
+      "malloc_null_above_ptrdiff_max": True, "pure_calls": ["map_from_old_types", "DFKNTsize"],
+      "member_cursors": {"wlist_type": "wlist_bptr", "wlist_off": "wlist_bptr", "wlist_isize": "wlist_bptr", "wlist_order": "wlist_bptr",
+                         "wlist_esize": "wlist_bptr"},
+      "block_cell": {"wlist_bptr": 2}}),
 ]
 
 
